@@ -415,12 +415,13 @@ class BlockProcessor:
             # A real reorg
             start = height - 1
             count = 1
-            while start > 0:
+            while True:
                 hashes = await self.db.fs_block_hashes(start, count)
                 hex_hashes = [hash_to_hex_str(hash) for hash in hashes]
                 d_hex_hashes = await self.daemon.block_hex_hashes(start, count)
                 n = diff_pos(hex_hashes, d_hex_hashes)
-                if n > 0:
+                # The window that reaches genesis must be compared too
+                if n > 0 or start <= 0:
                     start += n
                     break
                 count = min(count * 2, start)
